@@ -11,7 +11,7 @@ namespace vh {
 
 // ---- element storage: one mmap'ed region, optionally PROT_NONE while no access is expected
 struct Arena {
-  int* base = nullptr; size_t n = 2048; size_t bytes = 0; bool prot = false;
+  int* base = nullptr; size_t n = 70000; size_t bytes = 0; bool prot = false;
   Arena() { bytes = ((n * sizeof(int) + 4095) / 4096) * 4096; base = static_cast<int*>(mmap(nullptr, bytes, PROT_READ | PROT_WRITE, MAP_PRIVATE | MAP_ANONYMOUS, -1, 0)); reset(); }
   void reset() { unprotect(); for (size_t i = 0; i < n; i++) base[i] = static_cast<int>(1000000 + i); }
   void protect() { mprotect(base, bytes, PROT_NONE); prot = true; }
@@ -27,6 +27,8 @@ template <class T> struct StAcc {
   constexpr StAcc() noexcept = default;
   constexpr explicit StAcc(int i) noexcept : id(i) {}
   template <class U, class = std::enable_if_t<std::is_convertible<U (*)[], T (*)[]>::value>> constexpr StAcc(const StAcc<U>& o) noexcept : id(o.id) {}
+  // converting constructor from the (empty) default accessor: the converted accessor is NOT the default-constructed one
+  template <class U, class = std::enable_if_t<std::is_convertible<U (*)[], T (*)[]>::value>> constexpr StAcc(const md::default_accessor<U>&) noexcept : id(77) {}
   reference access(data_handle_type p, size_t i) const noexcept { accessLog().push_back({static_cast<long long>(p - const_cast<const int*>(arena().base)), static_cast<long long>(i)}); return p[i]; }
   data_handle_type offset(data_handle_type p, size_t i) const noexcept { accessLog().push_back({-1 - static_cast<long long>(p - const_cast<const int*>(arena().base)), static_cast<long long>(i)}); return p + i; }
 };
@@ -119,6 +121,26 @@ struct RevLayout {
   };
 };
 template <class E, size_t SP> struct MapOf<KRev, E, SP> { using type = RevLayout::mapping<E>; };
+
+// ---- a third user layout: "broadcast" - every multi-index designates element 0, so the mapping is valid (required_span_size() == 1)
+//      for extents whose product is far beyond the index type (size() is then formed in size_type and may wrap)
+struct BcLayout {
+  template <class E> struct mapping {
+    using extents_type = E; using index_type = typename E::index_type; using size_type = typename E::size_type; using rank_type = typename E::rank_type; using layout_type = BcLayout;
+    E ext;
+    constexpr mapping() noexcept = default;
+    constexpr mapping(const E& e) noexcept : ext(e) {}
+    template <class F, class = std::enable_if_t<std::is_constructible<E, F>::value>> constexpr mapping(const mapping<F>& o) noexcept : ext(o.ext) {}
+    constexpr const E& extents() const noexcept { return ext; }
+    constexpr index_type required_span_size() const noexcept { for (rank_type r = 0; r < E::rank(); r++) if (ext.extent(r) == 0) return 0; return 1; }
+    template <class... I> constexpr index_type operator()(I...) const noexcept { return 0; }
+    static constexpr bool is_always_unique() noexcept { return false; } static constexpr bool is_always_exhaustive() noexcept { return false; } static constexpr bool is_always_strided() noexcept { return true; }
+    static constexpr bool is_unique() noexcept { return false; } static constexpr bool is_exhaustive() noexcept { return true; } static constexpr bool is_strided() noexcept { return true; }
+    constexpr index_type stride(rank_type) const noexcept { return 0; }
+    template <class F> friend constexpr bool operator==(const mapping& a, const mapping<F>& b) noexcept { return a.ext == b.ext; }
+  };
+};
+template <class E, size_t SP> struct MapOf<KBc, E, SP> { using type = BcLayout::mapping<E>; };
 
 #if MDSPAN_USE_BRACKET_OPERATOR
 #define VH_AT(m, ...) m[__VA_ARGS__]
@@ -251,6 +273,14 @@ template <Kind K, class E, size_t SP, class A, class MDS2, class MDS3 = MDS2> vo
       if (c == "c3") {      // explicit conversion to all-static extents (valid when the run-time extents equal them)
         if constexpr (std::is_constructible_v<MDS3, const MDS&>) { if (pool[num_(2)]) pool3[num_(1)].emplace(MDS3(*pool[num_(2)])); else pool3[num_(1)].reset(); }
         else emit("no-ctor");
+        continue;
+      }
+      if (c == "c4") {      // conversion of a view with the empty default accessor into one with a stateful accessor (id 77 by its converting constructor)
+        using MDS4 = md::mdspan<const int, typename MDS2::extents_type, typename MDS2::layout_type, StAcc<const int>>;
+        if constexpr (std::is_constructible_v<MDS4, const MDS&>) {
+          if (pool[num_(2)]) { MDS4 v(*pool[num_(2)]); MDS4 w(v.data_handle(), v.mapping(), StAcc<const int>(5)); w = MDS4(*pool[num_(2)]); emit("c4 " + obsView(v) + " asg=" + std::to_string(accId(w.accessor()))); }
+          else emit("none");
+        } else emit("no-ctor");
         continue;
       }
       if (c == "o3") { emit(pool3[num_(1)] ? obsView(*pool3[num_(1)]) : "none"); continue; }
